@@ -38,10 +38,11 @@ func (c *hdrCase) key() string {
 
 type hdrWorld struct {
 	*world
-	now  int64
-	maxH int64
-	n    int64
-	acc  int64
+	now    int64
+	maxH   int64
+	n      int64
+	acc    int64
+	capped bool
 }
 
 func mkHeader(prev chainhash.Hash, h Hdr) *wire.BlockHeader {
@@ -97,6 +98,10 @@ func uniqI64(in []int64) []int64 {
 
 func (w *hdrWorld) dfs(prevHash chainhash.Hash, prev *refpow.Index, prevWork *big.Int, path []Hdr) {
 	if prev.Height >= w.maxH || w.r.Violations() > 100 {
+		return
+	}
+	if w.r.Expired() {
+		w.capped = true
 		return
 	}
 	s := w.rp.TargetSpacing
@@ -188,14 +193,21 @@ func headerSection(r *ev.Run, specs []ParamSpec, workers int) {
 		w := newHdrWorld(r, spec)
 		defer w.close()
 		I := w.rp.Interval()
-		w.maxH = 2*I + 1
-		if !r.Thorough() && I >= 4 {
-			w.maxH = I + 2
-		}
-		if r.Thorough() && I >= 8 {
-			w.maxH = I + 2
+		// candidate headers are tried at heights 1..maxH
+		switch {
+		case I <= 2:
+			w.maxH = int64(r.Pick(5, 7))
+		case I == 3:
+			w.maxH = 7
+		case I == 4:
+			w.maxH = int64(r.Pick(6, 7))
+		default:
+			w.maxH = I
 		}
 		w.dfs(*w.ip.GenesisHash, w.gen.x, w.gen.w, nil)
+		if w.capped {
+			r.Cap("header DFS for " + spec.Name + " cut by the time box")
+		}
 		r.Add("header_candidates", w.n)
 		r.Add("header_accepted", w.acc)
 		r.Add("header_not_demanded_core_wraps", w.notDemanded)
